@@ -545,6 +545,9 @@ func vPrefixOnlyPass(c *vCase) bool {
 	var recX, recY []*DataRecord
 	for i := 0; i < 6; i++ {
 		rec := vGenWireRecord(r, false)
+		if len(rec.data) == 1 && rec.data[0] == 0xdead {
+			rec.data[0] = 0xdeae // (0xdead alone is the sentinel)
+		}
 		if i%2 == 0 {
 			rec.channelIndex = x
 			recX = append(recX, rec)
@@ -554,8 +557,20 @@ func vPrefixOnlyPass(c *vCase) bool {
 		}
 		e.ch <- []*DataRecord{rec}
 	}
+	// (a sentinel may still be under way when the records are sent: a two-byte payload 0xdead is never one of the records)
+	isSentinel := func(m [][]byte) bool {
+		return len(m) == 2 && len(m[1]) == 2 && m[1][0] == 0xad && m[1][1] == 0xde
+	}
+	recvRecord := func(s *zmq4.Socket) ([][]byte, error) {
+		for {
+			m, err := s.RecvMessageBytes(0)
+			if err != nil || !isSentinel(m) {
+				return m, err
+			}
+		}
+	}
 	for k, rec := range recX {
-		m, err := a.RecvMessageBytes(0)
+		m, err := recvRecord(a)
 		if err != nil {
 			c.Violate("c14:subscription-missed", "the subscriber to the 2-byte prefix of channel %d did not receive record %d of %d after another client with a longer prefix of the same channel had come and gone", x, k+1, len(recX))
 			return false
@@ -565,7 +580,7 @@ func vPrefixOnlyPass(c *vCase) bool {
 		}
 	}
 	for k, rec := range recY {
-		m, err := cc.RecvMessageBytes(0)
+		m, err := recvRecord(cc)
 		if err != nil {
 			c.Violate("c14:subscription-missed", "the subscriber to the 2-byte prefix of channel %d did not receive record %d of %d", y, k+1, len(recY))
 			return false
@@ -575,7 +590,7 @@ func vPrefixOnlyPass(c *vCase) bool {
 		}
 	}
 	time.Sleep(5 * time.Millisecond)
-	if m, err := a.RecvMessageBytes(zmq4.DONTWAIT); err == nil {
+	if m, err := a.RecvMessageBytes(zmq4.DONTWAIT); err == nil && !isSentinel(m) {
 		c.Violate("c14:subscription-extra", "the subscriber to channel %d's prefix received a further message with header %v", x, m[0][:4])
 		return false
 	}
